@@ -16,10 +16,41 @@ def _alarm(signum, frame):
     raise _Timeout()
 
 
+def _container_mutations():
+    """valid container shell, damaged compressed payload"""
+    import lzma
+    import tarfile
+    import zipfile
+    buf = io.BytesIO()
+    with zipfile.ZipFile(buf, "w", zipfile.ZIP_DEFLATED) as z:
+        z.writestr("a.txt", ("line of text %d\n" * 400) % tuple(range(400)))
+    b = bytearray(buf.getvalue())
+    for k in range(60, 160, 7):           # inside the deflate stream of the first member
+        b[k] ^= 0x5A
+    yield "zip:damaged-deflate-stream", bytes(b), "zip"
+    raw = io.BytesIO()
+    with tarfile.open(fileobj=raw, mode="w") as t:
+        data = b"hello tar member\n" * 200
+        ti = tarfile.TarInfo("a.txt")
+        ti.size = len(data)
+        t.addfile(ti, io.BytesIO(data))
+    x = bytearray(lzma.compress(raw.getvalue()))
+    for k in range(40, min(len(x) - 12, 140), 5):
+        x[k] ^= 0xA5
+    yield "tar.xz:damaged-lzma-stream", bytes(x), "tar.xz"
+    import gzip
+    g = bytearray(gzip.compress(raw.getvalue()))
+    for k in range(30, min(len(g) - 8, 100), 3):
+        g[k] ^= 0x3C
+    yield "tar.gz:damaged-deflate-stream", bytes(g), "tar.gz"
+
+
 def inputs(seed, repo):
     rnd = random.Random(seed)
     yield "empty", b""
     yield "garbage", b"garbage \x00\xff" * 40
+    for label, data, _k in _container_mutations():
+        yield label, data
     files = sorted(glob.glob(os.path.join(repo, "sharepoint2text/tests/resources/*/*")))
     files = [f for f in files if os.path.isfile(f) and os.path.getsize(f) < 400_000]
     rnd.shuffle(files)
@@ -34,8 +65,72 @@ def inputs(seed, repo):
         yield f"bitflips:{name}", bytes(b)
 
 
+POOLS = {
+    "list[str]": [[], ["1"], ["1", "2"], ["1.5", "2.5", "3.5"], ["x", "1", "2", "3"], ["-", "12", "(3)"], ["a", "b", "c", "d"], ["1", "2", "3", "4", "5"]],
+    "int": [0, 1, 2, 3, 7],
+    "str": ["", "a", "1 2 3", "Revenue 1.5 2.5 3.5", "x  12  13", "\\u1234?", "{\\rtf1 a}"],
+    "bytes": [b"", b"\x00" * 64, b"\x89PNG\r\n\x1a\n" * 3, b"BM" + b"\x28\x00\x00\x00" * 20, bytes(range(256))],
+    "bool": [False, True],
+}
+
+
+def hang_search(obligation, repo):
+    """Small-scope native calls of the function a `decreases#` obligation belongs to, built from its annotations, each under a 3 s alarm."""
+    import importlib
+    import inspect
+    import itertools
+    try:
+        fileq = obligation.split("/", 1)[1].split("/decreases")[0]
+        fname, q = fileq.split("::")
+    except Exception:  # noqa
+        return None
+    hits = glob.glob(os.path.join(repo, "sharepoint2text", "**", fname), recursive=True)
+    if not hits:
+        return None
+    modname = os.path.relpath(hits[0], repo)[:-3].replace(os.sep, ".")
+    try:
+        obj = importlib.import_module(modname)
+        for part in q.split("."):
+            obj = getattr(obj, part)
+        sig = inspect.signature(obj)
+    except Exception:  # noqa
+        return None
+    pools = []
+    for name, prm in sig.parameters.items():
+        if name in ("self", "cls"):
+            return None
+        a_ = prm.annotation
+        ann = a_ if isinstance(a_, str) else (a_.__name__ if isinstance(a_, type) and not getattr(a_, "__args__", None) else str(a_))
+        ann = str(ann).replace("typing.", "").replace("List", "list")
+        if ann not in POOLS:
+            return None
+        pools.append(POOLS[ann])
+    signal.signal(signal.SIGALRM, _alarm)
+    tried = 0
+    for args in itertools.islice(itertools.product(*pools), 400):
+        tried += 1
+        signal.alarm(3)
+        try:
+            r = obj(*[a.copy() if isinstance(a, list) else a for a in args])
+            if inspect.isgenerator(r):
+                for _ in r:
+                    pass
+        except _Timeout:
+            return {"reproduced": True, "target": f"{modname}.{q}", "inputs": {"args": [repr(a)[:80] for a in args]}, "expected": "terminates",
+                    "observed": "no return within 3 s"}
+        except Exception:  # noqa
+            pass
+        finally:
+            signal.alarm(0)
+    return {"reproduced": False, "note": f"{tried} annotation-driven calls of {q} returned"}
+
+
 def find(req):
     repo = os.environ.get("VERIF_REPO", "/repo")
+    if "/decreases#" in (req.get("obligation") or ""):
+        r = hang_search(req["obligation"], repo)
+        if r is not None and r.get("reproduced"):
+            return r
     from sharepoint2text.parsing import router
     from sharepoint2text.parsing.exceptions import ExtractionError
     import importlib
@@ -55,9 +150,15 @@ def find(req):
                     continue
                 tried += 1
                 signal.alarm(20)
+                bio = io.BytesIO(data)
                 try:
-                    for _ in f(io.BytesIO(data), f"x.{k}"):
+                    for _ in f(bio, f"x.{k}"):
                         pass
+                    if bio.closed:
+                        signal.alarm(0)
+                        return {"reproduced": True, "target": f"{f.__module__}.{f.__name__}", "inputs": {"case": label, "as": k},
+                                "expected": "the caller's stream is left open (callers rewind it afterwards: e-mail attachments, archive members)",
+                                "observed": "file_like.closed is True after the results were consumed"}
                 except ExtractionError:
                     pass
                 except _Timeout:
